@@ -39,10 +39,18 @@ func init() {
 				}
 				// the closed loop: the real Reconcile against a fake cloud (monitors)
 				runIpamLoops(c, id)
+				if id == "C08" {
+					// convergence needs a vSwitch reported exhausted to come back once its cache entry expires: the shared
+					// vSwitch pool's histories (C17's generator, model and monitors) run here as well
+					c17Run(c)
+				}
 			},
 			Exec2: func(c *Ctx, ops []string) ([]string, []string) {
 				if len(ops) > 0 && strings.HasPrefix(ops[0], "dm.") {
 					return runDaemonWorld(c, id, ops)
+				}
+				if len(ops) > 0 && strings.HasPrefix(ops[0], "vsw.") {
+					return ops, c17Exec(c, ops)
 				}
 				if len(ops) > 0 && strings.HasPrefix(ops[0], "rt.") {
 					return ops, agExec(c, ops)
